@@ -218,9 +218,10 @@ class HandshakeSock(FakeSock):
     """answers the opening request with a valid 101 response followed (in the same byte stream) by `frames`;
     the combined stream is then cut at `cuts`"""
 
-    def __init__(self, frames, cuts, timeouts=()):
+    def __init__(self, frames, cuts, timeouts=(), eol="crlf"):
         FakeSock.__init__(self)
         self.frames, self.cuts, self.touts = frames, cuts, timeouts
+        self.eol = eol  # line ends of the response head: CRLF / bare LF (tolerated by the library, cf. its header03 test data) / only the blank line bare
         self.req = b""
         self.answered = False
         self.head_len = None
@@ -235,6 +236,10 @@ class HandshakeSock(FakeSock):
                 acc = base64.b64encode(hashlib.sha1((key + GUID).encode()).digest()).decode()
                 resp = ("HTTP/1.1 101 Switching Protocols\r\nUpgrade: websocket\r\nConnection: Upgrade\r\n"
                         "Sec-WebSocket-Accept: %s\r\n\r\n" % acc).encode()
+                if self.eol == "lf":
+                    resp = resp.replace(b"\r\n", b"\n")
+                elif self.eol == "lf-blank":
+                    resp = resp[:-2] + b"\n"
                 self.head_len = len(resp)
                 cuts = [self.head_len + c for c in self.cuts]  # negative c: inside the head, counted from its end
                 self.incoming = _partition(resp + self.frames, cuts, self.touts) + ["eof"]
@@ -243,7 +248,7 @@ class HandshakeSock(FakeSock):
         return k
 
 
-def s_hand(shape, ncuts):
+def s_hand(shape, ncuts, eol="crlf"):
     """frames arriving in the same segment(s) as the handshake response: connect() must not swallow a frame byte"""
     quiet_logging()
     import websocket._handshake as HS
@@ -262,7 +267,7 @@ def s_hand(shape, ncuts):
         s0 = FakeSock([stream, "eof"])
         w0 = new_ws(s0, get_mask_key=KeySource(list(keys)), skip_utf8_validation=True)
         ref = _drive(w0, 8, 0)
-        s1 = HandshakeSock(stream, cuts)
+        s1 = HandshakeSock(stream, cuts, eol=eol)
         w1 = new_ws(None, get_mask_key=KeySource(list(keys)), skip_utf8_validation=True)
         try:
             w1.connect("ws://example.test/chat", socket=s1)
@@ -297,6 +302,8 @@ def obligations(tier):
         for sh in ("frag+ping", "two-text"):
             part.append(dict(shape=sh, ncuts=0, ntimeouts=1, allcuts=True))
     hand = [dict(shape=sh, ncuts=c) for sh in ("text", "frag+ping", "close", "two-text") for c in ((0, 1, 2) if not thorough else (0, 1, 2, 3))]
+    # response heads whose lines end in a bare LF (accepted by the library): the byte after the blank line is a frame byte (round 7)
+    hand += [dict(shape=sh, ncuts=c, eol=e) for sh in ("text", "frag+ping") for c in (0, 1) for e in ("lf", "lf-blank")]
     return [
         Obligation("S-strict", s_strict, strict,
                    bounds="ONE recv_strict step: buffer of 0..%d chunks of 0..3 symbolic bytes, request 0..8, stream 0..%d bytes delivered in pieces "
@@ -309,7 +316,7 @@ def obligations(tier):
                    must_cover=["part", "with-timeout"], budget_s=2400 if thorough else 1200,
                    kernel=["frame_buffer.recv_frame (stage flags)", "recv_strict", "_socket.recv", "WebSocket._recv", "recv_data_frame", "continuous_frame.*"]),
         Obligation("S-hand", s_hand, hand,
-                   bounds="handshake response followed by frames, cut at <=%d positions from 3 bytes before the end of the head to the end of the stream" % (3 if thorough else 2),
+                   bounds="handshake response followed by frames, cut at <=%d positions from 3 bytes before the end of the head to the end of the stream; head lines ending in CRLF, in a bare LF, or only the blank line bare" % (3 if thorough else 2),
                    must_cover=["hand"], budget_s=1200,
                    kernel=["_socket.recv_line", "_http.read_headers", "_handshake.handshake", "WebSocket.connect", "recv_frame"]),
     ]
